@@ -484,6 +484,13 @@ def combo_worker(job):
         case.cleanup()
 
 
+def dup_entries(fasta) -> List[str]:
+    """header entry strings that occur more than once in a FASTA (seq -> header lines)"""
+    import collections
+    ents = [e for _s, h in fasta.items() for hh in h for e in hh.split(' ')]
+    return sorted(k for k, v in collections.Counter(ents).items() if v > 1)[:6]
+
+
 def circ_dup_worker(job):
     """one gene, one circRNA + 0-3 small records; the circRNA GVF is supplied TWICE under two file
     names (the same back-splice reported by two callers / runs).  Every header entry string of the
@@ -582,7 +589,7 @@ def fusion_chain(case, out, seed, rng, genome, anno, txs):
         with gen_ref.quiet():
             gen_ref.write_gvfs(case, [copy.deepcopy(x) for x in recs])
         r = gen_ref.run_call_variant(case, tag=tag, **kw)
-        runs[tag] = {'status': r.status, 'real': sorted(r.fasta.keys())}
+        runs[tag] = {'status': r.status, 'real': sorted(r.fasta.keys()), 'dup_entries': dup_entries(r.fasta)}
     out['runs'] = runs
     out['stats']['runs'] = 1
     return out
@@ -651,7 +658,7 @@ def fusion_pair_worker(job):
             with gen_ref.quiet():
                 gen_ref.write_gvfs(case, small + recs)
             r = gen_ref.run_call_variant(case, tag=tag, **kw)
-            runs[tag] = {'status': r.status, 'real': sorted(r.fasta.keys())}
+            runs[tag] = {'status': r.status, 'real': sorted(r.fasta.keys()), 'dup_entries': dup_entries(r.fasta)}
         out['runs'] = runs
         out['stats']['runs'] = 1
         return out
